@@ -265,8 +265,8 @@ def run(case, hooks=None):
                 sim.gw.mute_answers = True
             elif what == "unmute":
                 sim.gw.mute = sim.gw.mute_answers = False
-            elif what == "call" and "fn" in hooks.get("calls", {}):
-                hooks["calls"]["fn"](sim, arg)
+            elif what == "call":
+                hooks["call"](sim, arg)
             sim.loop.settle()
         if "before_drain" in hooks:
             hooks["before_drain"](sim)
